@@ -203,6 +203,8 @@ impl<L: Language> DeserializeEnv<L> {
         .insert(id, matcher)
         .map_err(RuleSerializeError::MatchesReference)?;
     }
+    // all global rules are registered now: the utils they refer to must be defined
+    registration.verify_utils()?;
     Ok(registration)
   }
 
